@@ -14,6 +14,7 @@ import DendroModel.Theory.C08Strike
 import DendroModel.Theory.C08UpdFull
 import DendroModel.Theory.C08Heap
 import DendroModel.Theory.C08Compose
+import DendroModel.Theory.C08HeapEq
 /-! C08 — property theorems.  Every `theorem` directly in `namespace DendroModel.C08` of this file is an obligation.
 They are statements about the definitions `drv_c08` executes (`Model/C08.lean`): the mechanisms as the code runs them
 (`pruneTaxa` = strike pass + leaf-removal loop + `T.sup`; `filterLeaves`; `retainTaxa`; `extractTree` = memo-driven fold over
@@ -950,6 +951,45 @@ theorem prune_subtree_twice (i j : Nat) (sup2 : Bool) (t subI subJ : T) (hnd : (
   simp only [Bool.false_eq_true, if_false] at h2
   exact suppress_no_unary _ _ _ h2
 
+/-! ### the object-store model and the functional model are one function (suppression declined) -/
+
+/-- on ANY store that holds the source tree (`Holds`: node `i` at address `i` with its attributes and child addresses; whatever else
+    the store contains), for any filter and both filter flags, with `suppress_unifurcations=False`: the loop on the store
+    (`extractHeap`, the model `extract_frame` is about) ends exactly as the functional fold (`extractTree`, the model
+    `extract_flags_eq_spec` / `extract_eq_restrict` are about) — the same exception, or a start address at which the store holds,
+    object for object (`Reads`: attributes, child order, `extraction_source` = node id), the tree the functional model returns.
+    With suppression requested the same statement is NOT proved (see MODELLED_NOT_VERIFIED): there the store version updates lengths
+    in place, so it needs the argument that memo entries are read once and that the stray `nd1` write only hits clones that never
+    reach the result. -/
+theorem extract_store_eq_functional_nosup (acc : Acc) (fl fi : Bool) (t : T) (h : List Cell) (hh : Holds h t) :
+    match extractTree acc fl fi false t with
+    | .ok r => ∃ a, (extractHeap acc fl fi false t h).start = some a ∧ Reads (extractHeap acc fl fi false t h).heap a r ∧
+        (extractHeap acc fl fi false t h).seedDeleted = false ∧ (extractHeap acc fl fi false t h).crashed = false
+    | .seedDeletion => (extractHeap acc fl fi false t h).seedDeleted = true
+    | .valueError => (extractHeap acc fl fi false t h).seedDeleted = false ∧ (extractHeap acc fl fi false t h).start = none := by
+  have R := fold_rel acc fl fi t.id h t hh (post t) (fun _ hn => hn) { heap := h } {}
+    (Or.inr ⟨⟨[], by simp⟩, by simp [MemoRel], by simp [StartRel], rfl, rfl, rfl, rfl⟩)
+  unfold extractTree extractHeap
+  generalize (post t).foldl (hStep acc fl fi false t.id) { heap := h } = hs at R
+  generalize (post t).foldl (exStep acc fl fi false t.id) {} = st at R
+  simp only
+  rcases R with ⟨d1, d2⟩ | R
+  · simp [d2, d1]
+  · obtain ⟨_, f2, f3, f4⟩ := R.flags
+    have hstart := R.start
+    simp only [f4, Bool.false_eq_true, if_false]
+    cases hs' : st.start with
+    | none =>
+      cases ha : hs.start with
+      | none => exact ⟨f3, rfl⟩
+      | some a => rw [hs', ha] at hstart; simp [StartRel] at hstart
+    | some r =>
+      cases ha : hs.start with
+      | none => rw [hs', ha] at hstart; simp [StartRel] at hstart
+      | some a =>
+        rw [hs', ha] at hstart
+        exact ⟨a, rfl, hstart, f3, f2⟩
+
 /-! ### the hypotheses are satisfiable, the statements are not vacuous -/
 def demo : T :=
   .node 0 none (some ⟨9, 1⟩) none
@@ -1023,5 +1063,18 @@ example : (pruneSubtree 2 false demo).render = "(0 - 9 (1 - 3 (3 1 2)) (4 - 8 (5
     ∧ ((pruneSubtree 2 false demo).find? 7).map T.id = some 7 ∧ (cut 2 demo).cs.isEmpty = false := by decide
 example : (pruneSubtree 7 true (pruneSubtree 2 false demo)).render = "(0 - 9 (3 1 5) (4 - 8 (5 2 4) (8 4 13)))" := by decide
 example : (restrict (both (outside [2]) (outside [7])) true demo).map T.render = some "(0 - 9 (3 1 5) (4 - 8 (5 2 4) (8 4 13)))" := by decide
+
+def demo3 : T := .node 0 none none none [.node 1 (some 0) (some ⟨1, 1⟩) none [], .node 2 (some 1) none none []]
+def store3 : List Cell := [{ kids := [1, 2] }, { taxon := some 0, len := some ⟨1, 1⟩ }, { taxon := some 1 }, { label := some "unrelated object" }]
+example : Holds store3 demo3 := by
+  intro n hn
+  simp only [demo3, post, postL, List.append_nil, List.nil_append, List.cons_append, List.mem_cons, List.not_mem_nil, or_false] at hn
+  rcases hn with rfl | rfl | rfl
+  · exact ⟨{ taxon := some 0, len := some ⟨1, 1⟩ }, rfl, rfl, rfl, rfl, rfl⟩
+  · exact ⟨{ taxon := some 1 }, rfl, rfl, rfl, rfl, rfl⟩
+  · exact ⟨{ kids := [1, 2] }, rfl, rfl, rfl, rfl, rfl⟩
+example : (extractHeap (fun i _ => i != 2) true false false demo3 store3).start = some 5
+    ∧ (extractHeap (fun i _ => i != 2) true false false demo3 store3).heap.length = 6
+    ∧ (match extractTree (fun i _ => i != 2) true false false demo3 with | .ok r => r.render | _ => "") = "(0 - N (1 0 1))" := by decide
 
 end DendroModel.C08
